@@ -97,6 +97,7 @@ func checkFragment(l lm.List, f int64) (lm.List, string, string) {
 
 func c10Run(c *core.Ctx) {
 	longRun(c, "fragment")
+	againRun(c, "fragment")
 	type scope struct {
 		grid  int64
 		max   int
